@@ -9,12 +9,13 @@ namespace occa {
     buffer::buffer(modeDevice_t *modeDevice_,
                    udim_t size_,
                    const occa::json &properties_) :
-      occa::modeBuffer_t(modeDevice_, size_, properties_) {}
+      occa::modeBuffer_t(modeDevice_, size_, properties_),
+      useHostPointer(false) {}
 
     buffer::~buffer() {
 
       if (!isWrapped && ptr) {
-        if (properties.get("use_host_pointer", false)) {
+        if (useHostPointer) {
           if (properties.get("own_host_pointer", false)) {
             sys::free(ptr);
           }
